@@ -81,6 +81,23 @@ def run(tier, seed):
         def name(self):
             return 'f'
     vals = gen_values(rng, H, 400 if tier == 'quick' else 5000)
+    # the blank convention, directly: None and white-space-only text give the type's empty value on every line type
+    EMPTY = {'TStr': '', 'TBool': False, 'TInt': 0}
+    for tname, mk in types:
+        for blank in (None, '', ' ', '\t', '  \n ', '\u00a0'):
+            fld = mk(lambda s_, i_, vv, b=blank: b)
+            fld.__form_init__(FakeForm())
+            want = EMPTY.get(tname, 0.0 if 'TFloat' in tname else None)
+            try:
+                got = fld.value(None, None)
+                okb = (got == want and type(got) is type(want)) or (want is None and got is None)
+            except Exception as e:  # noqa
+                got, okb = 'raised %s' % type(e).__name__, False
+            ck.count((tname, 'blank', repr(blank)), nontrivial=True)
+            if not okb:
+                ck.violation('C12:blank-convention:%s' % tname.split()[0].strip('('),
+                             'a %s line whose definition answers %r stores %r instead of the empty value %r' % (tname, blank, got, want),
+                             {'kind': 'failing-input', 'type': tname, 'returned': repr(blank), 'stored': repr(got), 'expected': repr(want)}, found=True)
     rows = []
     meta = []
     ties = 0
